@@ -23,9 +23,12 @@ def main():
                        sorted(kinds.items(), key=lambda x: -x[1])[:3])
         n += 1
         caught += m["property"] in m["caught_by"]
+        tier = os.path.join(HERE, "seeded", d, "tier")
+        by = ", ".join(m["caught_by"]) or "-"
+        if os.path.exists(tier):
+            by += " (%s tier)" % open(tier).read().strip()
         rows.append("| %s | %s | %s | %s |" % (
-            d, title.replace("|", "/")[:120],
-            ", ".join(m["caught_by"]) or "-", ks))
+            d, title.replace("|", "/")[:120], by, ks))
     p = os.path.join(HERE, "DESIGN.md")
     s = open(p).read()
     b, e = "<!-- seedtable:begin -->", "<!-- seedtable:end -->"
